@@ -595,7 +595,6 @@ func fixedWireSize(t types.Type) int64 {
 	return -1
 }
 
-
 // returnTuples lists what a function can return as tuples of values that belong together: a return whose results
 // are phis of its own block (the shape a function with several return statements takes once its body was expanded
 // in place, or when it collects its results in variables) is split into one tuple per incoming edge.
